@@ -32,7 +32,7 @@ package tso
 // C01: the physical part only moves forward (millisecond precision) and logical is reset with it, atomically.
 // C02: whoever moves memory forward must already have a stored window above the new value.
 //@ func (*timestampOracle).setTSOPhysical
-//@   props C01 C02
+//@   props C01 C02 C05
 //@   requires t.tsoMux != nil
 //@   requires [window] savedTyped(t) && unixnano(next) < savedNano(t)
 //@   ensures [forward] ms(unixnano(next)) > ms(old(physNano(t))) ==> t.tsoMux.physical == next && t.tsoMux.logical == 0
@@ -262,3 +262,11 @@ package tso
 //@   ensures [failed-update-resets-the-group] last("allocUpdate") > old(evclock[0]) && callres("UpdateTSO", 1) != nil ==> last("resetGroup") > last("allocUpdate")
 //@   option nosafety
 //@   modifies *
+
+// C02: every allocator keeps its time window under its OWN leader key (the Local allocator of a dc-location under that
+// location's allocator leader key) - two allocators never share a window record.
+//@ func NewLocalTSOAllocator
+//@   props C02
+//@   requires am != nil && leadership != nil
+//@   ensures [window-under-its-own-leader-key] typeisptr(result, LocalTSOAllocator) && asptr(result, LocalTSOAllocator) != nil && asptr(result, LocalTSOAllocator).timestampOracle != nil && asptr(result, LocalTSOAllocator).timestampOracle.rootPath == leadership.leaderKey && asptr(result, LocalTSOAllocator).leadership == leadership
+//@   modifies nothing
